@@ -46,6 +46,7 @@ type SD struct {
 	Skipped    int
 	skippedAt  []bool
 	Ended      bool
+	EndFed     bool // a FIN or RST of this direction has been handed to the assembler
 }
 
 // Stream is the harness side of one stream object handed out by the factory.
@@ -81,6 +82,7 @@ type Harness struct {
 	CutOff     time.Time
 	created    *Stream
 	feeding    *Pkt
+	endFeeding bool // the packet being fed is a FIN or RST
 	liveAt     *Stream
 	Completes  int // completions during the current call
 	LimitSkips int
@@ -148,6 +150,9 @@ func (h *Harness) NewStream(net, tcp gopacket.Flow) *Stream {
 	if h.feeding != nil && h.feeding.SYN {
 		x := h.sdOf(s, d)
 		x.SynFed, x.Anchored = true, true
+	}
+	if h.endFeeding {
+		h.sdOf(s, d).EndFed = true
 	}
 	return s
 }
@@ -255,6 +260,12 @@ func (h *Harness) Deliver(s *Stream, d *Dir, skip int, b []byte, start, end bool
 		}
 		x.Pos += len(b)
 		x.Delivered += len(b)
+		if end && !x.EndFed {
+			c.Fail("in-order", "end-without-fin-or-rst", "delivery", "dir %d: the end of the stream was signalled at offset %d although no FIN or RST of this direction has arrived", d.Idx, x.Pos)
+		}
+		if end && x.Pos < d.EndOff() {
+			c.Fail("in-order", "end-before-fin-position", "delivery", "dir %d: the end of the stream was signalled at offset %d; the sender's FIN/RST is at offset %d", d.Idx, x.Pos, d.EndOff())
+		}
 	} else {
 		// weak mode: the start of this direction was not seen before data
 		// was released; track position once it can be located
